@@ -271,15 +271,24 @@ def handleFile (ts : List String) : String :=
                 | none => true
               let firstT := (reads.head?.bind (·.res)).map (·.1)
               let disagree := reads.any fun r => (r.res.map (·.1)) ≠ firstT
+              -- the file without preamble shows `DICM` + the group length tag BOTH at offset 0 and at offset 128
+              -- (a value happens to spell them): no reader can tell which is the header, the statement's
+              -- "whether or not the preamble is present" presupposes that it can be told (hypothesis
+              -- `nonAmbiguous` of the theorems). Such a file is judged by the model comparison only.
+              let undecidable := ambiguous ∧ ((noPre.drop 132).take 4 = [2, 0, 0, 0]) ∧
+                bad.all (fun r => r.key == "np" || r.key == "nr") ∧
+                (reads.filter (fun r => r.key != "np" && r.key != "nr")).all (fun r => match r.res with
+                  | some (rt, same, _) => same && (tableEq rt t || infers (padTable' t))
+                  | none => false)
               if reads.length ≠ 6 then "BAD-LINE" else
-              if !bad.isEmpty ∨ disagree then
+              if (!bad.isEmpty ∨ disagree) ∧ !undecidable then
                 let keys := " ".intercalate (bad.map (·.key))
                 if ambiguous ∧ bad.all (fun r => r.key.startsWith "n") ∧ !bad.isEmpty then
                   s!"PROP-FAIL class=dicm-at-128-without-preamble failing-reads={keys}"
                 else s!"PROP-FAIL class=file-read-differs failing-reads={keys} disagree={disagree}"
               else
               -- re-written meta group of every read object is self-consistent
-              let stale := reads.filter fun r => match r.res with
+              let stale := (reads.filter fun r => !(undecidable && r.res.isNone)).filter fun r => match r.res with
                 | some (_, _, some rw) => (match recordedVsActual rw with
                     | some (g, a, rest) => g ≠ a ∨ rest ≠ []
                     | none => true)
@@ -294,6 +303,9 @@ def handleFile (ts : List String) : String :=
               | .ok mb =>
                 if fileBytes mb dsb ≠ wab then "MODEL-DIFF file bytes" else
                 let chk (r : ReadRec) : Option String :=
+                  -- (the model has the automatic detection only; with the option stated outright the two agree
+                  -- except on ambiguous files, where the explicit reads are judged by the oracle above alone)
+                  if (r.key == "nR" || r.key == "pR") && ambiguous then none else
                   let byPath := r.key.endsWith "p"
                   let src := if r.key.startsWith "p" then wab else noPre
                   match openMeta d byPath 8192 src, r.res with
